@@ -19,7 +19,7 @@ import solver  # noqa: E402
 import symex  # noqa: E402
 from symex import Adt, Scalar, Sym, Tokens, conj, disj, neg  # noqa: E402
 
-PROPS = ("C07", "C04")
+PROPS = ("C07", "C04", "C01", "C13")
 
 _LOADED = {}
 
@@ -202,6 +202,8 @@ def tag_is(sym, R, ty, names):
 
 def build(pid, P, R, tier, log_dir):
     obs = []
+    if pid not in ("C07",):
+        return obs
     AST_OP = "incan_syntax::ast::BinaryOp"
     IR_OP = "ir::expr::BinOp"
 
@@ -298,10 +300,13 @@ def run(pid, tier, seed):
     say(f"[{pid}] E2-X: dumping whole-crate MIR of incan from {common.REPO}")
     P, R = load(log)
     obs = build(pid, P, R, tier, log_dir)
+    import emit_props
     import plan_props
     import tc_props
-    obs += plan_props.build(pid, P, R, tier, log_dir)
+    if pid in ("C07", "C04", "C13"):
+        obs += plan_props.build(pid, P, R, tier, log_dir)
     obs += tc_props.build(pid, P, R, tier, log_dir)
+    obs += emit_props.build(pid, P, R, tier, log_dir)
     results = []
     for ob in obs:
         t0 = time.time()
